@@ -6,7 +6,10 @@
 (*     beliefs injected into every node's routing table, entry node,       *)
 (*     client-supplied forward header) and what was observed: status,      *)
 (*     which node's upstream served the request, and the number of proxy   *)
-(*     handler invocations on every node (piko_proxy_requests_total).      *)
+(*     handler invocations on every node (piko_proxy_requests_total);      *)
+(*     gone = nodes whose only upstream had sent go-away before the        *)
+(*     request, dereg = those of them whose registry no longer lists the   *)
+(*     endpoint afterwards.                                                *)
 (*   Place / Churn lines (C01): the placement of upstreams of several      *)
 (*     endpoints, the entry node, addressing mode and target endpoint, and *)
 (*     the endpoint / upstream stamped by whoever served the request.      *)
@@ -22,7 +25,7 @@ SetOf(arr) == {arr[i] : i \in DOMAIN arr}
 
 TraceInit ==
   /\ l = 1 /\ drift = 0 /\ viol = {}
-  /\ has = {} /\ bel = [n \in Node |-> {}] /\ up = {}
+  /\ has = {} /\ gone = {} /\ dereg = {} /\ bel = [n \in Node |-> {}] /\ up = {}
   /\ at = "" /\ fwd = FALSE /\ hops = 0 /\ runs = [n \in Node |-> 0]
   /\ outcome = "" /\ servedBy = "" /\ entry = "" /\ ext = "none"
 
@@ -34,9 +37,9 @@ RunsOf(e) ==
                   THEN e.runs[CHOOSE i \in DOMAIN e.runs : e.runs[i].n = n].c ELSE 0]
 
 \* what Proxy.tla allows for this configuration
-Possible(h, b, en, x) ==
+Possible(h, g, b, en, x) ==
   IF en \in h THEN {<<"served", en>>}
-  ELSE IF x = "forged" \/ b[en] = {} THEN {<<"502", "">>}
+  ELSE IF en \in g \/ x = "forged" \/ b[en] = {} THEN {<<"502", "">>}
   ELSE {IF m \in h THEN <<"served", m>> ELSE <<"502", "">> : m \in b[en]}
 
 PlacedFor(e, target) == {e.placed[i].u : i \in {j \in DOMAIN e.placed : e.placed[j].e = target}}
@@ -55,6 +58,8 @@ TraceNext ==
   /\ LET e == Log[l]
          route == e.op = "Route"
      IN /\ has' = IF route THEN SetOf(e.has) ELSE {}
+        /\ gone' = IF route THEN SetOf(e.gone) ELSE {}
+        /\ dereg' = IF route THEN SetOf(e.dereg) ELSE {}
         /\ bel' = IF route THEN BelOf(e) ELSE [n \in Node |-> {}]
         /\ up' = IF route THEN SetOf(e.nodes) ELSE {}
         /\ entry' = IF route THEN e.entry ELSE ""
@@ -71,7 +76,7 @@ TraceNext ==
                    ELSE IF route /\ e.status = 200 /\ e.servedBy = "" THEN {"FabricatedSuccess"}
                    ELSE IF route /\ outcome' = "other" THEN {"OutcomeIsServedOr502"}
                    ELSE {}
-        /\ drift' = drift + (IF route /\ <<outcome', servedBy'>> \notin Possible(has', bel', entry', ext') THEN 1 ELSE 0)
+        /\ drift' = drift + (IF route /\ <<outcome', servedBy'>> \notin Possible(has', gone', bel', entry', ext') THEN 1 ELSE 0)
 
 TraceSpec == TraceInit /\ [][TraceNext]_tvars
 
